@@ -2,8 +2,8 @@ package main
 
 import (
 	"fmt"
-	"os"
 	"go/constant"
+	"os"
 	"strings"
 
 	"golang.org/x/tools/go/ssa"
@@ -121,10 +121,10 @@ var mustCheck = []string{
 
 // errExceptions: (enclosing function | callee) -> reason.  One named symbol each.
 var errExceptions = map[string]string{
-	fRep + "revertDisk | " + fRep + "encodeToFile":        "rollback attempt on a path that already returns the original error",
-	fSrv + "initUUID | " + fRep + "writeVolumeMetaData":   "failure leaves the previous volume.meta intact (tmp+rename); the UUID is regenerated on the next Create (DESIGN.md F13)",
-	fSrv + "isExtentSupported$1 | os.Remove":              "removal of the scratch probe file tmpFile.tmp (not part of the replica's state)",
-	fSrv + "Reload | " + fRep + "Close":                   "old in-memory instance, superseded by the reloaded one",
+	fRep + "revertDisk | " + fRep + "encodeToFile":          "rollback attempt on a path that already returns the original error",
+	fSrv + "initUUID | " + fRep + "writeVolumeMetaData":     "failure leaves the previous volume.meta intact (tmp+rename); the UUID is regenerated on the next Create (DESIGN.md F13)",
+	fSrv + "isExtentSupported$1 | os.Remove":                "removal of the scratch probe file tmpFile.tmp (not part of the replica's state)",
+	fSrv + "Reload | " + fRep + "Close":                     "old in-memory instance, superseded by the reloaded one",
 	"(*replica.Server).Create | (*replica.Server).initUUID": "deferred; see initUUID",
 	fRep + "createDisk | " + fRep + "rmDisk":                "cleanup of the not yet referenced new head on a path that already returns createNewHead's error",
 }
